@@ -5,7 +5,10 @@
     fn sync.send_tensors world=<n> group=<g0,g1,…> dst=<none|d> init=<true|false> junk=<q> r<g>=<tensor> …
     fn sync.sync_states  world=<n> group=<…> dst=<…> junk=<q> r<g>=<collection> …
     fn sync.synced_bag   world=<n> group=<…> init=<…> r<g>=<collection of one metric `tmp`> …
-  `r<g>` is indexed by GLOBAL rank; `dst` is what the caller passes as `rank` (group-relative in synclib).
+    fn sync.syncable     world=<n> group=<…> r<g>=<collection> …      → `true` | `false`: the checker `syncableB`
+                         of the theorems' hypothesis `Syncable` (sound: TE.C15.syncable_checker_sound)
+  `r<g>` is indexed by GLOBAL rank; `dst` is what the caller passes as `rank` (group-relative in synclib);
+  the roots shown in traces (`g/…/<dst>`, `go/<dst>`, `bo/<src>`) are what torch is handed: GLOBAL ranks.
     tensor      <dtype>@<d0xd1…>@<q,q,…>        (0-dim: `float32@@5`, empty: `float32@0@`)
     state       T<tensor> | L(<tensor>;…) | D(<key>~<tensor>;…) | I<int> | F<q>
     collection  <metric>.<state>!<state>&…       (`-` for the empty collection)
@@ -14,7 +17,7 @@
     value   none | [<tensor>;…] | [<collection>|<collection>|…] | <collection>
 -/
 import TE.Driver.Fam
-import TE.Model.Sync
+import TE.Spec.Sync
 namespace TE.Driver
 open TE TE.Sync
 
@@ -146,7 +149,7 @@ def parseSetup (a : Args) : Except String Setup := do
   pure { gws, group, dst, init := a.bool "init" true, junk }
 
 def envs (s : Setup) : List Env :=
-  (List.range s.group.length).map fun i => { me := i, ws := s.group.length, gws := s.gws, dst := s.dst, junk := s.junk }
+  (List.range s.group.length).map fun i => { me := i, ws := s.group.length, grp := s.group, dst := s.dst, junk := s.junk }
 
 def memberArgs {α : Type} (a : Args) (s : Setup) (parse : String → Except String α) : Except String (List α) :=
   s.group.mapM fun g => do parse (← a.str s!"r{g}")
@@ -205,9 +208,14 @@ def fnSyncedBag (a : Args) : Except Err String := liftP do
   let progs := (envs s).zipWith (fun e sd => getSyncedMetric bagMetric s.init e sd) sds
   pure (showRun s.group.length (runWorldL s.group progs) (showSD tmpName))
 
+def fnSyncable (a : Args) : Except Err String := liftP do
+  let s ← parseSetup a
+  let cs ← memberArgs a s parseCollection
+  pure (if syncableB (cs.map traversal) then "true" else "false")
+
 /-- (request name, handler) -/
 def syncFns : List (String × (Args → Except Err String)) :=
   [("sync.send_tensors", fnSendTensors), ("sync.sync_states", fnSyncStates), ("sync.synced_bag", fnSyncedBag),
-   ("sync.ping", fun _ => .ok "pong")]
+   ("sync.syncable", fnSyncable), ("sync.ping", fun _ => .ok "pong")]
 
 end TE.Driver
